@@ -4,6 +4,7 @@ From Verif Require Import Base.Tactics Base.ZList Base.Val.
 From Verif Require Import Base.Str.
 From Verif Require Import Model.BufReaderModel Model.RangeModel Model.IsoTimeModel Model.TimingModel Model.SegModel.
 From Verif Require Import Base.Bits Model.CrcModel Model.EventsModel Model.Scte35Model Model.MpsModel Model.AuthModel Model.OptionsModel Model.BoxModel Model.FragModel Model.DrmModel Model.ErrModel Model.OptErrModel Model.XmlModel Model.StoreModel Model.ValidatorModel.
+From Verif Require Model.FieldModel.
 
 (* ---- C20 ---- request: (file off bs maxb (size?) mode ops) *)
 Definition c20_op (v : val) : op :=
@@ -283,6 +284,15 @@ Definition c04_run (v : val) : val :=
     match BoxModel.parse (S (length bs)) bs with Some l => VL [VL (map c04_tree l)] | None => VL [] end
   else if mode =? 1 then
     match BoxModel.parse (S (length bs)) bs with Some l => VL [of_ints (enc_list l)] | None => VL [] end
+  else if mode =? 3 then
+    (* typed body: (3 type version flags n1 n2 bytes) -> ((values) rest) where a value is (0 z) or (1 bytes) *)
+    let l := FieldModel.layout_of (vint (vnth 1 v)) (vint (vnth 2 v)) (vint (vnth 3 v)) (Z.to_nat (vint (vnth 4 v))) (Z.to_nat (vint (vnth 5 v))) in
+    match FieldModel.dec_fields l (vints (vnth 6 v)) with
+    | Some (vs, rest) =>
+        VL [VL (map (fun x => match x with FieldModel.VU z => VL [VI 0; VI z] | FieldModel.VB b => VL [VI 1; of_ints b] end) vs); of_ints rest;
+            match FieldModel.enc_fields l vs with Some pre => VL [of_ints pre] | None => VL [] end]
+    | None => VL []
+    end
   else if mode =? 2 then
     let top := vints (vnth 3 v) in
     match BoxModel.parse (S (length top)) top with
